@@ -762,7 +762,12 @@ def scenario_paths(stmts: List[ast.stmt], env: Dict[str, bool], test_oracle, eve
             return walk(st.body, e, ev)
         if isinstance(st, (ast.For, ast.While)):
             return walk(st.body, e, ev) + [(dict(e), list(ev))]
-        if isinstance(st, (ast.Continue, ast.Break, ast.Return, ast.Raise)):
+        if isinstance(st, ast.Raise):
+            return [(e, ev + ["raise", "exit"])]
+        if isinstance(st, ast.Return):
+            v = st.value.value if isinstance(st.value, ast.Constant) else ("?" if st.value is not None else None)
+            return [(e, ev + [f"return:{v}", "exit"])]
+        if isinstance(st, (ast.Continue, ast.Break)):
             return [(e, ev + ["exit"])]
         return [(e, ev)]
 
